@@ -391,6 +391,7 @@ def out_of_range_literals(prim):
     if prim == 'float':
         return [('3.4028235678e38', 'just above the rounding threshold of FLT_MAX'), ('1e39', 'overflow'),
                 ('-1e39', 'negative overflow'), ('1e-46', 'underflow to zero'), ('1e-40', 'inexact subnormal'),
+                ('1.1754943157898258e-38', 'just below the tininess threshold'), ('1.1754942106924411e-38', 'largest subnormal, inexact'),
                 ('0x1p3', 'hex float'), ('nan', 'lower-case nan'), ('inf', 'lower-case inf'), ('+NaN', 'signed NaN'),
                 ('INFINITY', 'INFINITY'), ('1e', 'dangling exponent'), ('.', 'lonely point'), ('1.5f', 'suffix'),
                 (' 1.5', 'leading blank'), ('1.5 ', 'trailing blank'), ('', 'empty'), ('1,5', 'comma'),
@@ -398,6 +399,7 @@ def out_of_range_literals(prim):
     if prim == 'double':
         return [('1.797693134862315808e308', 'just above the rounding threshold of DBL_MAX'), ('1e309', 'overflow'),
                 ('-1e309', 'negative overflow'), ('1e-330', 'underflow to zero'), ('4.9e-324', 'inexact subnormal'),
+                ('2.2250738585072011e-308', 'just below the tininess threshold'),
                 ('0X1P3', 'hex float'), ('NAN', 'upper-case NAN'), ('Inf', 'mixed-case Inf'), ('-NaN', 'signed NaN'),
                 ('1e+', 'dangling exponent'), ('e5', 'no mantissa'), ('1.5d', 'suffix'), ('', 'empty')]
     raise ValueError(prim)
@@ -419,10 +421,11 @@ def boundary_literals(prim):
                 ('0e99999999999999999999', 'zero with a huge exponent'),
                 ('1.40129846432481707092372958328991613128026194187651577175706828388979108268586060148663818836212158203125e-45',
                  'exact smallest subnormal'),
-                ('1.1754942106924411e-38', 'rounds up to FLT_MIN')]
+                ('1.17549433e-38', 'below FLT_MIN but rounds up to it: not tiny after rounding')]
     if prim == 'double':
         return [('1.7976931348623157e308', 'DBL_MAX'), ('1.797693134862315807e308', 'just below the rounding threshold'),
-                ('2.2250738585072014e-308', 'DBL_MIN'), ('NaN', 'NaN'), ('-INF', '-INF'), ('1e-5', 'small'),
+                ('2.2250738585072014e-308', 'DBL_MIN'), ('2.22507385850720126e-308', 'below DBL_MIN but rounds up to it'),
+                ('NaN', 'NaN'), ('-INF', '-INF'), ('1e-5', 'small'),
                 ('0.1', 'inexact'), ('-1.5E-3', 'exponent')]
     raise ValueError(prim)
 
